@@ -97,6 +97,7 @@ type UnitContract struct {
 	Vars     []GhostVar // lemma variables
 	Opaque   []string   // callee names to treat as opaque (havoc) even if they have contracts
 	Fresh    []string   // local variable names havoced at region entry are implicit; listed for docs
+	FPChecks []*FPCheck // exhaustive concrete evaluation of rounding-critical statements (fpx.go)
 }
 
 func (u *UnitContract) ID() string {
@@ -430,6 +431,15 @@ func (cs *ContractSet) parseFile(path, pkgdir string) error {
 			for _, tg := range parseTags(strings.TrimPrefix(t, "serves ")) {
 				cur.Tags[tg] = true
 			}
+		case strings.HasPrefix(t, "fp-exhaustive"):
+			fc, err := parseFPCheck(strings.TrimSpace(strings.TrimPrefix(t, "fp-exhaustive")))
+			if err != nil {
+				return fail(l, "%v", err)
+			}
+			for _, tg := range fc.Tags {
+				cur.Tags[tg] = true
+			}
+			cur.FPChecks = append(cur.FPChecks, fc)
 		case strings.HasPrefix(t, "alias-of-field "):
 			cur.Macros["__alias_"+strings.TrimSpace(strings.TrimPrefix(t, "alias-of-field "))] = &Macro{}
 		case t == "inline":
